@@ -32,14 +32,15 @@ theorem delOK_noneOfP {p : Int} {sN : SysN} {w : Nat} {sent : List Pipeline.Tok}
   | conn a => simp [isConn] at hd
   | parts v => exact ⟨⟨v, rfl⟩, by simpa [isConn] using hd⟩
 
-/-- **the `deliver` step for a set that holds nothing of `p`** (under `delOK`): no step if the set is hidden, the
-    `deliver` step of the empty set if it is visible -/
-theorem proj_deliver_noneOfP_p {M : Nat} {p : Int} {sN sN' : SysN} {s : Sys} {w : Nat} {still : Bool}
+/-- **the `deliver` step for a set that holds nothing of `p`** (under `delOK`): no step if the set is hidden (the
+    one-partition worker has no set), the `deliver` step of the empty set if it is visible -/
+theorem proj_deliver_noneOfP_c {M : Nat} {p : Int} {sN sN' : SysN} {s : Sys} {w : Nat} {still : Bool}
     {sent : List Pipeline.Tok} {rest : List (List Pipeline.Tok)}
     (h : WRel (BRp p) p sN s) (hd : delOK p sN w = true)
     (hsets : (sN.wk w).bp.sets = sent :: rest) (he : projL p sent = [])
     (hs : sysStepN M sN (.deliver w still) = some sN') :
-    WRel (BRp p) p sN' s ∨ ∃ c' s', sysStep M s c' = some s' ∧ WRel (BRp p) p sN' s' := by
+    ((s.wk w).bp.sets = [] ∧ WRel (BRp p) p sN' s) ∨
+      ((s.wk w).bp.sets ≠ [] ∧ ∃ s', sysStep M s (.deliver w still) = some s' ∧ WRel (BRp p) p sN' s') := by
   cases hpd : (sN.wk w).pend with
   | none => simp [sysStepN, hpd] at hs
   | some rb =>
@@ -48,9 +49,9 @@ theorem proj_deliver_noneOfP_p {M : Nat} {p : Int} {sN sN' : SysN} {s : Sys} {w 
     obtain ⟨hid, hb, hs1, hhid, hk0, hpend⟩ := h.br w
     cases hid with
     | true =>
-      exact Or.inl (proj_deliver_hidden_parts_p h hpd hsets he hwt (by simpa using hs1) hs)
+      exact Or.inl ⟨by simpa using hs1, proj_deliver_hidden_parts_p h hpd hsets he hwt (by simpa using hs1) hs⟩
     | false =>
-      right
+      refine Or.inr ⟨by rw [hs1, hsets]; simp, ?_⟩
       obtain ⟨a1, a2, a3, a4⟩ := brp_fields hb
       have he' : onPart p sent = [] := by simpa [projL] using he
       have hw' : ∀ t, (sN.wk w).bp.wait = some t → t.part ≠ p := by
@@ -76,7 +77,7 @@ theorem proj_deliver_noneOfP_p {M : Nat} {p : Int} {sN sN' : SysN} {s : Sys} {w 
           ⟨h.q.next, h.q.dq, h.q.pq, h.q.pp, h.q.ret, h.q.ldr, h.q.log, h.q.succ, h.q.errs, h.q.pqp⟩
         obtain ⟨r1, r2, r3⟩ := bpActsN_foreign (resp M (sN.wk w).bp (.verdicts (fun q => bvOf (v q)) [] []) still).2
           base hq0 fa
-        refine ⟨.deliver w still, _, hstep,
+        refine ⟨_, hstep,
           ⟨r1.next, r1.dq, r1.pq, r1.pp, r1.ret, r1.ldr, r1.log, r1.succ, r1.errs, r1.pqp⟩,
           by rw [r3]; exact h.cur, fun k => ?_, fun k => ?_⟩
         · rw [r2]
@@ -92,5 +93,17 @@ theorem proj_deliver_noneOfP_p {M : Nat} {p : Int} {sN sN' : SysN} {s : Sys} {w 
             rw [pb]
             conv => lhs; rw [hb]
           · simp only [setW, setWN, hk, if_false]; exact h.br k
+
+
+/-- the same, without saying which case -/
+theorem proj_deliver_noneOfP_p {M : Nat} {p : Int} {sN sN' : SysN} {s : Sys} {w : Nat} {still : Bool}
+    {sent : List Pipeline.Tok} {rest : List (List Pipeline.Tok)}
+    (h : WRel (BRp p) p sN s) (hd : delOK p sN w = true)
+    (hsets : (sN.wk w).bp.sets = sent :: rest) (he : projL p sent = [])
+    (hs : sysStepN M sN (.deliver w still) = some sN') :
+    WRel (BRp p) p sN' s ∨ ∃ c' s', sysStep M s c' = some s' ∧ WRel (BRp p) p sN' s' := by
+  rcases proj_deliver_noneOfP_c h hd hsets he hs with ⟨_, h1⟩ | ⟨_, s', h1, h2⟩
+  · exact Or.inl h1
+  · exact Or.inr ⟨_, s', h1, h2⟩
 
 end Props.C02sys
